@@ -334,6 +334,7 @@ const (
 	// gets a second NodeClaim although its own claim would still admit all the pods it was created for
 	kfDisplacement   = "rerun-displaces-pods-from-their-in-flight-nodeclaim"
 	kfUndefinedLabel = "existing-node-undefined-label-after-notin"
+	kfAnyExcluded    = "any-returns-excluded-value"
 	kfCollapse       = "contradictory-constraints-collapse-to-doesnotexist"
 )
 
@@ -490,7 +491,21 @@ func (m *mp) rerunClaim(c *kit.Ctx, claim string, podKeys []string, stage string
 	return realOK
 }
 
-func (m *mp) kfRerun(nc *v1.NodeClaim, li *launchInfo, pods []sk.PodDump, firstErr string) string { return "" }
+// kfRerun recognises the one known defect that makes an in-flight node reject the pods of its own claim: F10
+// (any-returns-excluded-value, reported under C13) — ToNodeClaim resolved a custom label with Requirement.Any() to a
+// value the NodeClaim's own requirement on that key excludes.
+func (m *mp) kfRerun(nc *v1.NodeClaim, li *launchInfo, pods []sk.PodDump, firstErr string) string {
+	reqs := scheduling.NewNodeSelectorRequirementsWithMinValues(nc.Spec.Requirements...)
+	for k, val := range nc.Labels {
+		if v1.WellKnownLabels.Has(k) || !reqs.Has(k) {
+			continue
+		}
+		if !reqs.Get(k).Has(val) {
+			return kfAnyExcluded
+		}
+	}
+	return ""
+}
 
 // ---------------------------------------------------------------- a world
 
@@ -530,7 +545,7 @@ func (m *mp) decisionStamp(keys []types.NamespacedName) time.Time {
 func (m *mp) reconcileProvisioner(keys []types.NamespacedName) (ran bool, created []string) {
 	before := m.claimNames()
 	m.clk.Step(3 * time.Second)
-	stamp := m.decisionStamp(keys)
+	calls := m.cp.ITCalls
 	m.prov.Trigger(types.UID("trigger"))
 	done := make(chan struct{})
 	go func() {
@@ -544,7 +559,7 @@ func (m *mp) reconcileProvisioner(keys []types.NamespacedName) (ran bool, create
 		case <-done:
 			after := m.claimNames()
 			created, _ = lo.Difference(after, before)
-			return m.decisionStamp(keys).After(stamp), created
+			return m.cp.ITCalls != calls, created
 		default:
 			if m.clk.HasWaiters() {
 				m.clk.Step(11 * time.Second)
@@ -672,7 +687,6 @@ func runWorld(c *kit.Ctx, r *kit.Rand, idx int) {
 			c.Count(fmt.Sprintf("sync.reconcile-while-partly-launched.ran=%v", ran))
 		}
 	}
-	emitSync(c, segs, idx)
 	// one in-flight claim may be deleted by somebody (expiration, user): it stops being capacity
 	live := lo.Filter(order, func(n string, _ int) bool { return stage[n] >= 1 })
 	if len(live) > 0 && r.Chance(1, 5) {
@@ -825,6 +839,16 @@ func runWorld(c *kit.Ctx, r *kit.Rand, idx int) {
 			map[string]interface{}{"kind": "rerun-pass", "world": idx, "stage": labels[round], "podsServedAgain": again, "createdFor": served, "podsOnInFlightNodes": onNode,
 				"everyClaimReadmitsItsOwnPods": allJoint, "placements": pk.Obs, "errors": pk.Errors, "stateNodes": pk.SNs, "kf_key": key})
 	}
+	// every NodeClaim is launched now: a triggered reconcile runs a pass again
+	if m.cluster.Synced(m.ctx) {
+		ran, made := m.reconcileProvisioner(podKeys)
+		if ran {
+			passes++
+		}
+		observe([]string{"reconcile"}, []string{"(CReconcile " + gss(made) + ")"})
+		c.Count(fmt.Sprintf("sync.reconcile-when-synced.ran=%v", ran))
+	}
+	emitSync(c, segs, idx)
 }
 
 func stageName(s int) string {
